@@ -8,6 +8,7 @@ import (
 	"fmt"
 	"io"
 	"math/rand"
+	"sort"
 	"strings"
 	"testing"
 
@@ -105,7 +106,22 @@ func vtC03QuotaObj(id, parent int64, lend bool, decl [3]bool, a []int64) *v1alph
 	return q
 }
 
-func vtC03Pod(id, quota int64, np bool, req []int64, bound bool) *corev1.Pod {
+// phase codes of the wire format (coq/C03/Codec.v): 0 none, 1 Pending, 2 Running, 3 Succeeded, 4 Failed
+func vtC03Phase(ph int64) corev1.PodPhase {
+	switch ph {
+	case 1:
+		return corev1.PodPending
+	case 2:
+		return corev1.PodRunning
+	case 3:
+		return corev1.PodSucceeded
+	case 4:
+		return corev1.PodFailed
+	}
+	return ""
+}
+
+func vtC03Pod(id, quota int64, np bool, req []int64, bound bool, phase int64) *corev1.Pod {
 	rl := corev1.ResourceList{}
 	for d := 0; d < 3; d++ {
 		if req[d] >= 0 { // -1: the pod has no such key; 0 is an explicit zero request
@@ -125,9 +141,18 @@ func vtC03Pod(id, quota int64, np bool, req []int64, bound bool) *corev1.Pod {
 	}
 	if bound {
 		pod.Spec.NodeName = "n1"
-		pod.Status.Phase = corev1.PodRunning
 	}
+	pod.Status.Phase = vtC03Phase(phase)
 	return pod
+}
+
+func vtC03Sub(a, b [3]bool) bool {
+	for d := 0; d < 3; d++ {
+		if a[d] && !b[d] {
+			return false
+		}
+	}
+	return true
 }
 
 func vtC03Exec(in []int64) []int64 {
@@ -161,7 +186,8 @@ func vtC03Exec(in []int64) []int64 {
 			_, exists := quotas[id]
 			okParent := parent == 0
 			if p, ok := quotas[parent]; ok && parent != 0 {
-				okParent = p.decl == decl && parent%2 == 0 && parent < id
+				// any key set when the limit is max; included in the parent's when runtime quota is on
+				okParent = (in[0] == 0 || vtC03Sub(decl, p.decl)) && parent%2 == 0 && parent < id
 			}
 			if id <= 0 || exists || !okParent {
 				status = -1
@@ -198,6 +224,42 @@ func vtC03Exec(in []int64) []int64 {
 			}
 			pl.OnPodUpdate(old, np)
 			pods[a[0]] = np
+		case 13: // PodStatus: an update event that only changes the status phase and (a[2] != 0) sets the node name
+			old, ok := pods[a[0]]
+			if !ok {
+				status = -1
+				break
+			}
+			np := old.DeepCopy()
+			podRV++
+			np.ResourceVersion = fmt.Sprint(podRV)
+			np.Status.Phase = vtC03Phase(a[1])
+			if a[2] != 0 {
+				np.Spec.NodeName = "n1"
+			}
+			pl.OnPodUpdate(old, np)
+			pods[a[0]] = np
+		case 14: // Restart: what a new leader does at start-up (plugin.go New + ForceSyncFromInformerWithReplace):
+			// a fresh quota manager, ReplaceQuotas with every quota object, then the node and every pod
+			// object replayed through the informer's add handlers
+			var objs []interface{}
+			for _, id := range order {
+				objs = append(objs, quotas[id].obj)
+			}
+			if err := pl.ReplaceQuotas(objs); err != nil {
+				panic(err)
+			}
+			if node != nil {
+				pl.OnNodeAdd(node)
+			}
+			var pids []int64
+			for id := range pods {
+				pids = append(pids, id)
+			}
+			sort.Slice(pids, func(i, j int) bool { return pids[i] < pids[j] })
+			for _, id := range pids {
+				pl.OnPodAdd(pods[id])
+			}
 		case 11: // FlipLend: the allow-lent-resource label changes, nothing else (a quota META change)
 			q, ok := quotas[a[0]]
 			if !ok {
@@ -215,7 +277,7 @@ func vtC03Exec(in []int64) []int64 {
 				status = -1
 				break
 			}
-			pod := vtC03Pod(a[0], a[1], a[2] != 0, a[3:6], rec[0] == 8)
+			pod := vtC03Pod(a[0], a[1], a[2] != 0, a[3:6], rec[0] == 8, a[6])
 			pods[a[0]] = pod
 			pl.OnPodAdd(pod)
 		case 10: // Reserve alone (the PreFilter of this cycle was an earlier operation)
@@ -332,7 +394,18 @@ type vtC03GQ struct {
 
 func vtC03Gen(r *rand.Rand, i int) (string, []int64) {
 	rt, chk := int64(r.Intn(2)), int64(r.Intn(2))
-	style := []string{"tight", "tight", "elastic", "elastic", "mixed", "large"}[r.Intn(6)]
+	// styles: value ranges (tight/elastic/mixed/large); "hetero": quota trees whose key sets differ
+	// along a parent chain (sub-, super-set and "sandwich" chains, mostly with the parent check on);
+	// "failover": the history starts with the informer replaying already-bound pods in every phase
+	style := []string{"tight", "tight", "elastic", "elastic", "mixed", "large", "hetero", "hetero", "hetero", "failover"}[r.Intn(10)]
+	if style == "hetero" {
+		if r.Intn(4) != 0 {
+			rt = 0
+		}
+		if r.Intn(4) != 0 {
+			chk = 1
+		}
+	}
 	label := fmt.Sprintf("%s-rt%d-chk%d", style, rt, chk)
 	unit := func() int64 { // a request-sized amount
 		switch style {
@@ -408,12 +481,54 @@ func vtC03Gen(r *rand.Rand, i int) (string, []int64) {
 		}
 		return
 	}
+	// mkQuota emits a QuotaAdd and mirrors the rule by which model and harness accept it
+	mkQuota := func(parent int64, decl [3]bool, wantParent, loose bool) *vtC03GQ {
+		mx, mn, w := quotaVals(decl)
+		if loose { // a generous max, so that it is an ancestor that binds
+			for d := 0; d < 3; d++ {
+				if decl[d] {
+					mx[d] += 10 + int64(r.Intn(10))
+				}
+			}
+		}
+		id := nextQ
+		if (id%2 == 0) != wantParent { // parent quotas have even ids
+			id++
+		}
+		nextQ = id + 1
+		if r.Intn(50) == 0 && parent != 0 {
+			id, parent = parent, id // rarely: a child whose id is not above its parent's (skipped by model and harness)
+		}
+		emit(1, id, parent, int64(r.Intn(2)), vtB(decl[0]), vtB(decl[1]), vtB(decl[2]),
+			mx[0], mx[1], mx[2], mn[0], mn[1], mn[2], w[0], w[1], w[2])
+		ok := parent == 0
+		for _, x := range qs {
+			if x.id == parent && (rt == 0 || vtC03Sub(decl, x.decl)) && parent%2 == 0 && parent < id {
+				ok = true
+				x.hasChild = true
+			}
+		}
+		for _, x := range qs {
+			if x.id == id {
+				ok = false
+			}
+		}
+		if ok && id > 0 {
+			q := &vtC03GQ{id: id, parent: parent, decl: decl, max: mx}
+			qs = append(qs, q)
+			return q
+		}
+		return nil
+	}
 	addQuota := func() {
 		if len(qs) >= 6 {
 			return
 		}
 		parent := int64(0)
 		decl := [3]bool{true, r.Intn(4) != 0, r.Intn(3) == 0}
+		if style == "hetero" && r.Intn(2) == 0 {
+			decl[2] = true
+		}
 		if r.Intn(8) == 0 {
 			decl[0] = false
 			decl[1] = true
@@ -442,35 +557,61 @@ func vtC03Gen(r *rand.Rand, i int) (string, []int64) {
 			}
 			if depth < 3 {
 				parent, decl = p.id, p.decl
-				p.hasChild = true
 			}
 		}
-		if r.Intn(40) == 0 && parent != 0 { // rarely: key set differs from the parent's (skipped by model and harness)
-			decl[2] = !decl[2]
-		}
-		mx, mn, w := quotaVals(decl)
-		wantParent := r.Intn(5) < 2 // parent quotas have even ids
-		id := nextQ
-		if (id%2 == 0) != wantParent {
-			id++
-		}
-		nextQ = id + 1
-		if r.Intn(50) == 0 && parent != 0 {
-			id, parent = parent, id // rarely: a child whose id is not above its parent's (skipped by model and harness)
-		}
-		emit(1, id, parent, int64(r.Intn(2)), vtB(decl[0]), vtB(decl[1]), vtB(decl[2]),
-			mx[0], mx[1], mx[2], mn[0], mn[1], mn[2], w[0], w[1], w[2])
-		ok := parent == 0
-		for _, x := range qs {
-			if x.id == parent && x.decl == decl && parent%2 == 0 && parent < id {
-				ok = true
-			}
-			if x.id == id {
-				ok = false
+		if parent != 0 {
+			if style == "hetero" { // the child's key set differs from the parent's
+				switch r.Intn(5) {
+				case 0: // drop a dimension (a subset: also legal when runtime quota is on)
+					if d := r.Intn(3); decl[(d+1)%3] || decl[(d+2)%3] {
+						decl[d] = false
+					}
+				case 1: // add one
+					decl[1+r.Intn(2)] = true
+				case 2:
+					decl[2] = !decl[2]
+				case 3:
+					decl[1] = !decl[1]
+				}
+			} else if r.Intn(40) == 0 { // rarely elsewhere (skipped by model and harness when runtime quota is on and it is no subset)
+				decl[2] = !decl[2]
 			}
 		}
-		if ok && id > 0 {
-			qs = append(qs, &vtC03GQ{id: id, parent: parent, decl: decl, max: mx})
+		mkQuota(parent, decl, r.Intn(5) < 2, false)
+	}
+	// a three-level chain top -> mid -> leaf (+ a sibling leaf) with prescribed key sets
+	chain := func() {
+		all := [3]bool{true, true, true}
+		cm := [3]bool{true, true, false}
+		ce := [3]bool{true, false, true}
+		c := [3]bool{true, false, false}
+		pat := [][3][3]bool{
+			{all, cm, all}, // the intermediate quota lacks a dimension its parent and its child declare
+			{all, ce, all},
+			{ce, c, ce},
+			{all, cm, all},
+			{all, c, all},
+			{cm, c, cm},
+			{all, cm, c},  // shrinking
+			{c, cm, all},  // growing
+			{cm, cm, all}, // only the leaf declares the dimension
+			{all, cm, cm}, // only the top declares it
+		}[r.Intn(10)]
+		loose := r.Intn(3) != 0
+		top := mkQuota(0, pat[0], true, false)
+		if top == nil {
+			return
+		}
+		mid := mkQuota(top.id, pat[1], true, loose && r.Intn(2) == 0)
+		if mid == nil {
+			return
+		}
+		mkQuota(mid.id, pat[2], false, loose)
+		if r.Intn(2) == 0 {
+			mkQuota(mid.id, pat[2], false, loose)
+		}
+		if r.Intn(3) == 0 {
+			mkQuota(top.id, pat[r.Intn(3)], false, loose)
 		}
 	}
 	pickQuota := func() *vtC03GQ {
@@ -495,44 +636,74 @@ func vtC03Gen(r *rand.Rand, i int) (string, []int64) {
 	if r.Intn(10) != 0 {
 		capacity()
 	}
-	for k := 1 + r.Intn(4); k > 0; k-- {
+	nq := 1 + r.Intn(4)
+	if style == "hetero" && r.Intn(5) != 0 {
+		chain()
+		nq = r.Intn(2)
+	}
+	for k := nq; k > 0; k-- {
 		addQuota()
 	}
-	n := 8 + r.Intn(28)
-	for len(ops) < n {
-		switch c := r.Intn(100); {
-		case c < 22: // pod add
-			q := pickQuota()
-			if q == nil {
-				addQuota()
-				continue
-			}
-			qid := q.id
-			if r.Intn(40) == 0 {
-				qid = 77 // unknown quota
-			}
-			code := int64(3)
-			if r.Intn(20) == 0 {
-				code = 8
-			}
-			req := [3]int64{-1, -1, -1}
-			for d := 0; d < 3; d++ {
-				if r.Intn(4) != 0 && (q.decl[d] || r.Intn(3) == 0) {
-					req[d] = unit()
-					if req[d] == 0 && r.Intn(2) == 0 {
-						req[d] = -1 // mostly leave the key out instead of an explicit zero
-					}
+	phase := func(bound bool) int64 {
+		if bound { // a bound pod is Pending while its containers are created, then Running, finally Succeeded/Failed
+			return []int64{0, 1, 1, 1, 2, 2, 2, 3, 4}[r.Intn(9)]
+		}
+		return []int64{0, 0, 1, 1, 1, 1, 2, 3, 4}[r.Intn(9)]
+	}
+	addPod := func(code int64) {
+		q := pickQuota()
+		if q == nil {
+			addQuota()
+			return
+		}
+		qid := q.id
+		if r.Intn(40) == 0 {
+			qid = 77 // unknown quota
+		}
+		req := [3]int64{-1, -1, -1}
+		for d := 0; d < 3; d++ {
+			if r.Intn(4) != 0 && (q.decl[d] || r.Intn(3) == 0) {
+				req[d] = unit()
+				if req[d] == 0 && r.Intn(2) == 0 {
+					req[d] = -1 // mostly leave the key out instead of an explicit zero
 				}
 			}
-			id := nextP
-			nextP++
-			emit(code, id, qid, vtB(r.Intn(4) == 0), req[0], req[1], req[2])
-			if qid == q.id {
-				ps = append(ps, gpod{id, qid})
+		}
+		id := nextP
+		nextP++
+		emit(code, id, qid, vtB(r.Intn(4) == 0), req[0], req[1], req[2], phase(code == 8))
+		if qid == q.id {
+			ps = append(ps, gpod{id, qid})
+		}
+	}
+	if style == "failover" { // the informer replays the pods the previous leader had bound
+		for k := 2 + r.Intn(4); k > 0; k-- {
+			if r.Intn(5) == 0 {
+				addPod(3)
+			} else {
+				addPod(8)
 			}
-		case c < 54:
-			emit(4, pickPod())
-		case c < 62: // a cycle whose Reserve comes a few informer events after its PreFilter
+		}
+	}
+	n := 8 + r.Intn(28)
+	if style == "hetero" {
+		n += 6
+	}
+	for len(ops) < n {
+		switch c := r.Intn(100); {
+		case c < 21: // pod add
+			code := int64(3)
+			if r.Intn(10) == 0 {
+				code = 8
+			}
+			addPod(code)
+		case c < 52:
+			id := pickPod()
+			emit(4, id)
+			if r.Intn(5) == 0 || (style == "failover" && r.Intn(2) == 0) { // the API server confirms the binding: an update that carries the node name
+				emit(13, id, 1+int64(r.Intn(2)), 1)
+			}
+		case c < 60: // a cycle whose Reserve comes a few informer events after its PreFilter
 			id := pickPod()
 			emit(9, id)
 			for k := r.Intn(3); k > 0 && len(ops) < n; k-- {
@@ -577,9 +748,9 @@ func vtC03Gen(r *rand.Rand, i int) (string, []int64) {
 			} else {
 				emit(10, pickPod())
 			}
-		case c < 72:
+		case c < 69:
 			emit(5, pickPod())
-		case c < 80:
+		case c < 77:
 			id := pickPod()
 			emit(6, id)
 			for k := range ps {
@@ -588,7 +759,7 @@ func vtC03Gen(r *rand.Rand, i int) (string, []int64) {
 					break
 				}
 			}
-		case c < 88: // quota update
+		case c < 85: // quota update
 			if len(qs) == 0 {
 				continue
 			}
@@ -606,15 +777,19 @@ func vtC03Gen(r *rand.Rand, i int) (string, []int64) {
 			}
 			q.max = mx
 			emit(2, q.id, 0, 0, 0, 0, 0, mx[0], mx[1], mx[2], mn[0], mn[1], mn[2], w[0], w[1], w[2])
-		case c < 92:
+		case c < 89:
 			capacity()
-		case c < 95: // quota meta change: the allow-lent-resource label of some quota flips (tree rebuild)
+		case c < 92: // quota meta change: the allow-lent-resource label of some quota flips (tree rebuild)
 			if len(qs) == 0 {
 				continue
 			}
 			emit(11, qs[r.Intn(len(qs))].id)
-		case c < 98: // a pod's preemptible label flips
+		case c < 95: // a pod's preemptible label flips
 			emit(12, pickPod())
+		case c < 98: // a pod's status changes (kubelet: Running / Succeeded / Failed), maybe with the node name appearing
+			emit(13, pickPod(), phase(true), vtB(r.Intn(3) == 0))
+		case c < 99 || style == "failover": // the scheduler restarts (leader fail-over)
+			emit(14)
 		default:
 			addQuota()
 		}
